@@ -606,6 +606,8 @@ class SymtableCodeGen(AbstractCodeGen):
         self._postponedSyms.clear()
         self._importMap.clear()
         self._out = {}  # should be new object, do not use `clear` method
+        self._moduleRevision = None
+        self.fakeidx = self.__class__.fakeidx
         self.moduleName[0], moduleOid, imports, declarations = ast
 
         out, importedModules = self.genImports(imports or {})
